@@ -244,6 +244,13 @@ impl<K, S> RodeoReader<K, S> {
         unsafe { self.strings.get_unchecked(key.into_usize()) }
     }
 
+    /// Read-only view of the arena's layout
+    #[cfg(lasso_verif)]
+    #[doc(hidden)]
+    pub fn verif_audit(&self) -> crate::verif::ArenaAudit {
+        self.__arena.verif_audit()
+    }
+
     /// Gets the number of interned strings
     ///
     /// # Example
